@@ -184,6 +184,17 @@ class Tx(ast.NodeTransformer):
         node.test = self._reorder(node.test)
         return node
 
+    def visit_Compare(self, node):
+        self.generic_visit(node)
+        # `x in (c1, c2, ...)` with constant members: decided from x's interval when possible (no fork), same truth value
+        if len(node.ops) == 1 and isinstance(node.ops[0], (ast.In, ast.NotIn)) and isinstance(node.comparators[0], ast.Tuple) and \
+                all(isinstance(e, ast.Constant) and isinstance(e.value, int) for e in node.comparators[0].elts):
+            call = ast.Call(func=ast.Name('__sx_in__', ast.Load()), args=[node.left, node.comparators[0]], keywords=[])
+            if isinstance(node.ops[0], ast.NotIn):
+                call = ast.UnaryOp(ast.Not(), call)
+            return ast.copy_location(call, node)
+        return node
+
     def visit_Call(self, node):
         self.generic_visit(node)
         f = node.func
